@@ -152,6 +152,24 @@ def examine(case):
     elif after != fresh:
         res.findings.append({"sig": {"kind": "differs-from-fresh-object", "cls": type(o).__name__},
                              "what": "the observed object renders %r, an identically constructed fresh object %r" % (after, fresh)})
+    # what is built FROM an observed object must not depend on the observations either (a value cached by a rendering and
+    # inherited by the builder copies would show here): the same continuation on the observed object and on a fresh twin
+    if not res.findings and isinstance(o, ns.queries.QueryBuilder) and not o._insert_table and not o._update_table \
+            and not o._delete_from and o._from:
+        conts = ["o.select(F('zz').as_('zal')).groupby(F('zz').as_('zal')).orderby(F('zz').as_('zal'))",
+                 "o.select((F('zy') + 1).as_('zal2')).orderby((F('zy') + 1).as_('zal2')).where(F('zw') == 1).limit(3)"]
+        for cont in conts:
+            try:
+                twin = ns.ex(src)[case["var"]]
+            except Exception:
+                break
+            c1 = safe(lambda: str(eval(cont, dict(ns.NS, o=o))))
+            c2 = safe(lambda: str(eval(cont, dict(ns.NS, o=twin))))
+            if c1 != c2:
+                res.findings.append({"sig": {"kind": "derivation-depends-on-observations", "cls": type(o).__name__},
+                                     "what": "%s gives %r on the observed object and %r on an identically constructed fresh one | %s"
+                                             % (cont, c1, c2, src)})
+                break
     # sub-objects too: the parts of a statement must render as before
     # correspondence: the model is a function of (ctx, term) — rendering twice gives the same answer by construction;
     # the implementation side is compared with the model once
